@@ -311,6 +311,10 @@ class World:
 
     # ---- queries
     def vid(self, x):
+        if isinstance(x, V):
+            # (also when the last calling lookup passed this very object as
+            # its default)
+            return x.vid
         if x is self.dflt:
             return NONE
         if any(x is d for d in DEFAULTS):
